@@ -106,9 +106,10 @@ theorem glue_core (cfg : Cfg) (d1 d2 d3 : Int) (pre post : List Op) (rets : List
   have hpost : ∀ op ∈ post, opOK K op := fun op h => hok op (by simp [ops, h])
   have hleave : opOK K (.leave rets rndv r2a r2b) := hok _ (by simp [ops])
   obtain ⟨p1, p2, _, _, p5⟩ := run_spec cfg K rfl d1 d2 d3 pre hpre
-  obtain ⟨bn1, bn2, vs1, vs2, g, st0, _, _, c1, c2⟩ := leave_spec cfg K rfl s0 f rest hst p2 rets rndv r2a r2b hleave
-  have sok : StackOK K s1 := (step_spec cfg K rfl s0 _ p2 hleave).2.1
-  obtain ⟨q1, _⟩ := runFrom_spec cfg K rfl post s1 sok hpost
+  have gok : GuardOK K s0 := run_guardOK cfg K d1 d2 d3 pre hpre
+  obtain ⟨bn1, bn2, vs1, vs2, g, st0, _, _, c1, c2⟩ := leave_spec cfg K rfl s0 f rest hst p2 rets rndv r2a r2b hleave gok
+  have sok : StackOK K s1 := (step_spec cfg K rfl s0 _ p2 hleave gok).2.1
+  obtain ⟨q1, _⟩ := runFrom_spec cfg K rfl post s1 sok hpost (step_guardOK cfg K s0 _ gok hleave)
   have e : sf = runFrom cfg s1 post := by
     show runFrom cfg (St.init d1 d2 d3) (pre ++ _ :: post) = _
     rw [runFrom_append]; rfl
@@ -157,7 +158,7 @@ theorem glue_equal_core (cfg : Cfg) (d1 d2 d3 : Int) (pre post : List Op) (rets 
         intro a b x hx
         induction a with
         | nil => exact hx
-        | cons o a ih => cases o <;> simp [lcsOf, ih]
+        | cons o a ih => exact lcsOf_cons_sub o _ x ih
       apply hsub
       simp [lcsOf, this]
     exact ⟨k2, k1, hcoh _ hm, fun _ => k3, hu _ hm⟩
